@@ -724,3 +724,110 @@ Proof.
   intros H. unfold finish. cbn [w_key]. unfold wake_fuel. cbn [run_wake]. unfold wake_iter. cbn [w_key].
   destruct (aget (mgrs s) k) as [m|]; [rewrite H|]; reflexivity.
 Qed.
+
+(* ------------------------------------------------------------------ Lock on a held key (exclusive request, no wait) *)
+Definition refuse_state (s : db) (conn : N) (c : cmd) : db :=
+  let k := c_key c in
+  let '(s1, r) := new_lock s k conn c in
+  remove_mgr_if_unref (free_lock s1 r) k.
+
+Lemma lock_step_refused s conn c m cur :
+  lock_simple c -> mode_ok s (c_flag c) -> c_count c = 0 ->
+  aget (mgrs s) (c_key c) = Some m -> m_locked m = 1 -> m_cur m = Some cur -> m_locks m = None -> m_waited m = false ->
+  c_lockid (l_cmd (getl s cur)) <> c_lockid c ->
+  exists ev, lock_step s conn c = (refuse_state s conn c, ev, None) /\ aofs_of ev = [].
+Proof.
+  intros (Hl & Hf & Ht & Hto & Hms & Hd) Hm Hcnt E Hlk Hc Hq Hw Hne.
+  unfold lock_step, refuse_state. cbv zeta.
+  assert (F8 : has (c_flag c) LOCK_FLAG_CONCURRENT_CHECK = false) by (destruct Hf as [-> | ->]; reflexivity).
+  assert (F1 : has (c_flag c) LOCK_FLAG_SHOW = false) by (destruct Hf as [-> | ->]; reflexivity).
+  assert (F4 : negb (leader s) && negb (has (c_flag c) LOCK_FLAG_FROM_AOF) = false).
+  { destruct Hm as [[-> ->] | [-> ->]]; reflexivity. }
+  rewrite F8. cbn [andb]. rewrite E, F4, (getm_some _ _ _ E), Hlk.
+  change (0 <? 1) with true. cbv iota. rewrite F1. cbn [andb]. cbv iota.
+  unfold get_locked_lock. rewrite Hc, Hq.
+  assert (X : (c_lockid (l_cmd (getl s cur)) =? c_lockid c) = false) by (apply N.eqb_neq; exact Hne).
+  rewrite X, Hw. cbv iota beta.
+  destruct (new_lock s (c_key c) conn c) as [s1 r] eqn:EN.
+  pose proof (new_lock_getm _ _ _ _ _ _ EN) as GM. rewrite E in GM.
+  assert (GL : c_count (l_cmd (getl s1 r)) = 0).
+  { unfold new_lock in EN. injection EN as <- <-. unfold getl. rewrite store_updm. cbn [store set].
+    rewrite aget_aset, N.eqb_refl. cbn [l_cmd]. exact Hcnt. }
+  assert (DL : do_lock s1 (c_key c) r = false).
+  { unfold do_lock. rewrite GM, GL. cbn [m_locked set]. rewrite Hlk. reflexivity. }
+  rewrite DL, Hto. cbn [negb orb andb]. change (0 <? 0) with false. cbn [andb]. cbv iota.
+  eexists. split; reflexivity.
+Qed.
+
+Lemma lock_step_same s conn c m cur :
+  lock_simple c -> mode_ok s (c_flag c) -> c_rcount c = 0 ->
+  aget (mgrs s) (c_key c) = Some m -> m_locked m = 1 -> m_cur m = Some cur ->
+  c_lockid (l_cmd (getl s cur)) = c_lockid c -> l_ack (getl s cur) = 255 -> l_locked (getl s cur) = 1 ->
+  exists ev, lock_step s conn c = (s, ev, None) /\ aofs_of ev = [].
+Proof.
+  intros (Hl & Hf & Ht & Hto & Hms & Hd) Hm Hrc E Hlk Hc Hid Ha Hdp.
+  unfold lock_step. cbv zeta.
+  assert (F8 : has (c_flag c) LOCK_FLAG_CONCURRENT_CHECK = false) by (destruct Hf as [-> | ->]; reflexivity).
+  assert (F1 : has (c_flag c) LOCK_FLAG_SHOW = false) by (destruct Hf as [-> | ->]; reflexivity).
+  assert (F2 : has (c_flag c) LOCK_FLAG_UPDATE = false) by (destruct Hf as [-> | ->]; reflexivity).
+  assert (F4 : negb (leader s) && negb (has (c_flag c) LOCK_FLAG_FROM_AOF) = false).
+  { destruct Hm as [[-> ->] | [-> ->]]; reflexivity. }
+  rewrite F8. cbn [andb]. rewrite E, F4, (getm_some _ _ _ E), Hlk.
+  change (0 <? 1) with true. cbv iota. rewrite F1. cbn [andb]. cbv iota.
+  unfold get_locked_lock. rewrite Hc, Hid, N.eqb_refl, Ha. change (negb (255 =? 255)) with false. cbv iota.
+  rewrite F2, Hdp, Hrc. change ((1 <? 255) && (1 <=? 0)) with false. cbn [andb]. cbv iota.
+  eexists. split; reflexivity.
+Qed.
+
+(* create-and-free of a record on a key whose manager exists and is referenced: nothing changes (extensionally) *)
+Lemma mgr_ext m m' :
+  m_ref m = m_ref m' -> m_locked m = m_locked m' -> m_cur m = m_cur m' -> m_data m = m_data m' ->
+  m_locks m = m_locks m' -> m_wait m = m_wait m' -> m_waited m = m_waited m' -> m = m'.
+Proof. destruct m, m'; cbn; intros; subst; reflexivity. Qed.
+
+Lemma dec_add32 x : x + 1 < 4294967296 -> dec32 (add32 x 1) = x.
+Proof.
+  intros H. unfold dec32, sub32, add32.
+  rewrite (N.mod_small (x + 1)) by lia. change (1 mod 4294967296) with 1.
+  replace (x + 1 + 4294967296 - 1) with (x + 1 * 4294967296) by lia. rewrite N.mod_add by lia. apply N.mod_small. lia.
+Qed.
+
+Lemma mgr_ref_restore m : m_ref m + 1 < 4294967296 ->
+  m <| m_ref := add32 (m_ref m) 1 |> <| m_ref := dec32 (m_ref (m <| m_ref := add32 (m_ref m) 1 |>)) |> = m.
+Proof.
+  intros H. apply mgr_ext; cbn [m_ref m_locked m_cur m_data m_locks m_wait m_waited set]; auto. apply dec_add32, H.
+Qed.
+
+Lemma refuse_state_spec s conn c m :
+  aget (mgrs s) (c_key c) = Some m -> aget (store s) (next s) = None -> m_ref m + 1 < 4294967296 -> m_ref m <> 0 ->
+  let s' := refuse_state s conn c in
+  (forall r, aget (store s') r = aget (store s) r) /\ (forall k, aget (mgrs s') k = aget (mgrs s) k) /\
+  (awf (store s) -> awf (store s')) /\ same_scalars s s' /\ next s' = next s + 1.
+Proof.
+  intros Hm Hfresh Hb Hnz. unfold refuse_state, new_lock. cbv zeta.
+  set (k := c_key c) in *. set (r := next s).
+  match goal with |- context [aset (store s) r ?x] => set (l0 := x) end.
+  set (s1 := updm (s <| store := aset (store s) r l0 |> <| next := r + 1 |>) k (fun m0 => m0 <| m_ref := add32 (m_ref m0) 1 |>)).
+  set (m1 := m <| m_ref := add32 (m_ref m) 1 |>).
+  assert (R1 : aget (store s1) r = Some l0).
+  { subst s1. rewrite store_updm. cbn [store set]. rewrite aget_aset, N.eqb_refl. reflexivity. }
+  assert (M1 : aget (mgrs s1) k = Some m1) by (subst s1; rewrite aget_updm, N.eqb_refl; cbn [mgrs set]; rewrite Hm; reflexivity).
+  assert (K0 : l_key l0 = k) by reflexivity.
+  destruct (free_rm_spec s1 r k l0 m1 R1 K0 M1) as (E & R2 & M2). cbv zeta in E, R2, M2.
+  assert (Z : (dec32 (m_ref m1) =? 0) = false).
+  { apply N.eqb_neq. subst m1. cbn [m_ref set]. rewrite (dec_add32 _ Hb). exact Hnz. }
+  rewrite Z in M2. 
+  assert (M2' : aget (mgrs (remove_mgr_if_unref (free_lock s1 r) k)) k = Some m).
+  { rewrite M2. f_equal. subst m1. apply mgr_ext; cbn [m_ref m_locked m_cur m_data m_locks m_wait m_waited set]; auto.
+    apply dec_add32, Hb. }
+  clear M2. rename M2' into M2.
+  csplit.
+  - intros r'. destruct (N.eq_dec r' r) as [->|Hne]; [rewrite R2; symmetry; exact Hfresh|].
+    rewrite (ef_l _ _ _ _ E) by exact Hne. subst s1. rewrite store_updm. cbn [store set]. rewrite aget_aset.
+    destruct (r =? r') eqn:Q; [apply N.eqb_eq in Q; congruence|reflexivity].
+  - intros k'. destruct (N.eq_dec k' k) as [->|Hne]; [rewrite M2; symmetry; exact Hm|].
+    rewrite (ef_m _ _ _ _ E) by exact Hne. subst s1. rewrite aget_updm_other by congruence. reflexivity.
+  - intros W. apply (ef_awf _ _ _ _ E). subst s1. rewrite store_updm. cbn [store set]. apply awf_aset. exact W.
+  - eapply same_trans; [|apply (ef_same _ _ _ _ E)]. subst s1. eapply same_trans; [|apply same_updm]. split; reflexivity.
+  - rewrite (ef_next _ _ _ _ E). subst s1. rewrite next_updm. reflexivity.
+Qed.
